@@ -1,32 +1,32 @@
 import Cvss.Base.Go
 set_option linter.unusedVariables false
 set_option maxRecDepth 100000
-/-! GENERATED from /repo/30 — do not edit -/
+/-! GENERATED from package 30 — do not edit -/
 namespace GenV30
 
-/-- Get  (/repo/30/cvss30.go:226:1) -/
---   r0 := (cvss30.u0 & 0b11000000) >> 6
---   r1 := (cvss30.u0 & 0b00100000) >> 5
---   r2 := (cvss30.u0 & 0b00011000) >> 3
---   r3 := (cvss30.u0 & 0b00000100) >> 2
---   r4 := (cvss30.u0 & 0b00000010) >> 1
---   r5 := ((cvss30.u0 & 0b00000001) << 1) | (cvss30.u1&0b10000000)>>7
---   r6 := (cvss30.u1 & 0b01100000) >> 5
---   r7 := (cvss30.u1 & 0b00011000) >> 3
---   r8 := cvss30.u1 & 0b00000111
---   r9 := (cvss30.u2 & 0b11100000) >> 5
---   r10 := (cvss30.u2 & 0b00011000) >> 3
---   r11 := (cvss30.u2 & 0b00000110) >> 1
---   r12 := ((cvss30.u2 & 0b00000001) << 1) | ((cvss30.u3 & 0b10000000) >> 7)
---   r13 := (cvss30.u3 & 0b01100000) >> 5
---   r14 := (cvss30.u3 & 0b00011100) >> 2
---   r15 := cvss30.u3 & 0b00000011
---   r16 := (cvss30.u4 & 0b11000000) >> 6
---   r17 := (cvss30.u4 & 0b00110000) >> 4
---   r18 := (cvss30.u4 & 0b00001100) >> 2
---   r19 := cvss30.u4 & 0b00000011
---   r20 := (cvss30.u5 & 0b11000000) >> 6
---   r21 := (cvss30.u5 & 0b00110000) >> 4
+/-- Get  (cvss30.go) -/
+--   r0 := (Nat.shiftRight (Nat.land u0 (192 : Nat)) (6 : Nat))
+--   r1 := (Nat.shiftRight (Nat.land u0 (32 : Nat)) (5 : Nat))
+--   r2 := (Nat.shiftRight (Nat.land u0 (24 : Nat)) (3 : Nat))
+--   r3 := (Nat.shiftRight (Nat.land u0 (4 : Nat)) (2 : Nat))
+--   r4 := (Nat.shiftRight (Nat.land u0 (2 : Nat)) (1 : Nat))
+--   r5 := (Nat.lor (Nat.mod (Nat.shiftLeft (Nat.land u0 (1 : Nat)) (1 : Nat)) 256) (Nat.shiftRight (Nat.land u1 (128 : Nat)) (7 : Nat)))
+--   r6 := (Nat.shiftRight (Nat.land u1 (96 : Nat)) (5 : Nat))
+--   r7 := (Nat.shiftRight (Nat.land u1 (24 : Nat)) (3 : Nat))
+--   r8 := (Nat.land u1 (7 : Nat))
+--   r9 := (Nat.shiftRight (Nat.land u2 (224 : Nat)) (5 : Nat))
+--   r10 := (Nat.shiftRight (Nat.land u2 (24 : Nat)) (3 : Nat))
+--   r11 := (Nat.shiftRight (Nat.land u2 (6 : Nat)) (1 : Nat))
+--   r12 := (Nat.lor (Nat.mod (Nat.shiftLeft (Nat.land u2 (1 : Nat)) (1 : Nat)) 256) (Nat.shiftRight (Nat.land u3 (128 : Nat)) (7 : Nat)))
+--   r13 := (Nat.shiftRight (Nat.land u3 (96 : Nat)) (5 : Nat))
+--   r14 := (Nat.shiftRight (Nat.land u3 (28 : Nat)) (2 : Nat))
+--   r15 := (Nat.land u3 (3 : Nat))
+--   r16 := (Nat.shiftRight (Nat.land u4 (192 : Nat)) (6 : Nat))
+--   r17 := (Nat.shiftRight (Nat.land u4 (48 : Nat)) (4 : Nat))
+--   r18 := (Nat.shiftRight (Nat.land u4 (12 : Nat)) (2 : Nat))
+--   r19 := (Nat.land u4 (3 : Nat))
+--   r20 := (Nat.shiftRight (Nat.land u5 (192 : Nat)) (6 : Nat))
+--   r21 := (Nat.shiftRight (Nat.land u5 (48 : Nat)) (4 : Nat))
 def Get_core (r0 : Nat) (r1 : Nat) (r2 : Nat) (r3 : Nat) (r4 : Nat) (r5 : Nat) (r6 : Nat) (r7 : Nat) (r8 : Nat) (r9 : Nat) (r10 : Nat) (r11 : Nat) (r12 : Nat) (r13 : Nat) (r14 : Nat) (r15 : Nat) (r16 : Nat) (r17 : Nat) (r18 : Nat) (r19 : Nat) (r20 : Nat) (r21 : Nat) (abv : (List Nat)) : ((List Nat) × Go.Err) :=
   let r := []
   let err := Go.errNil
@@ -336,7 +336,7 @@ def Get_core (r0 : Nat) (r1 : Nat) (r2 : Nat) (r3 : Nat) (r4 : Nat) (r5 : Nat) (
 def Get (u0 : Nat) (u1 : Nat) (u2 : Nat) (u3 : Nat) (u4 : Nat) (u5 : Nat) (abv : (List Nat)) : ((List Nat) × Go.Err) :=
   Get_core (Nat.shiftRight (Nat.land u0 (192 : Nat)) (6 : Nat)) (Nat.shiftRight (Nat.land u0 (32 : Nat)) (5 : Nat)) (Nat.shiftRight (Nat.land u0 (24 : Nat)) (3 : Nat)) (Nat.shiftRight (Nat.land u0 (4 : Nat)) (2 : Nat)) (Nat.shiftRight (Nat.land u0 (2 : Nat)) (1 : Nat)) (Nat.lor (Nat.mod (Nat.shiftLeft (Nat.land u0 (1 : Nat)) (1 : Nat)) 256) (Nat.shiftRight (Nat.land u1 (128 : Nat)) (7 : Nat))) (Nat.shiftRight (Nat.land u1 (96 : Nat)) (5 : Nat)) (Nat.shiftRight (Nat.land u1 (24 : Nat)) (3 : Nat)) (Nat.land u1 (7 : Nat)) (Nat.shiftRight (Nat.land u2 (224 : Nat)) (5 : Nat)) (Nat.shiftRight (Nat.land u2 (24 : Nat)) (3 : Nat)) (Nat.shiftRight (Nat.land u2 (6 : Nat)) (1 : Nat)) (Nat.lor (Nat.mod (Nat.shiftLeft (Nat.land u2 (1 : Nat)) (1 : Nat)) 256) (Nat.shiftRight (Nat.land u3 (128 : Nat)) (7 : Nat))) (Nat.shiftRight (Nat.land u3 (96 : Nat)) (5 : Nat)) (Nat.shiftRight (Nat.land u3 (28 : Nat)) (2 : Nat)) (Nat.land u3 (3 : Nat)) (Nat.shiftRight (Nat.land u4 (192 : Nat)) (6 : Nat)) (Nat.shiftRight (Nat.land u4 (48 : Nat)) (4 : Nat)) (Nat.shiftRight (Nat.land u4 (12 : Nat)) (2 : Nat)) (Nat.land u4 (3 : Nat)) (Nat.shiftRight (Nat.land u5 (192 : Nat)) (6 : Nat)) (Nat.shiftRight (Nat.land u5 (48 : Nat)) (4 : Nat)) abv
 
-/-- validate  (/repo/30/cvss30.go:633:1) -/
+/-- validate  (cvss30.go) -/
 def validate (value : (List Nat)) (enabled : (List (List Nat))) : (Nat × Go.Err) :=
   F64.flet (0 : Nat) fun i =>
   let err := Go.errNil
@@ -350,7 +350,7 @@ def validate (value : (List Nat)) (enabled : (List (List Nat))) : (Nat × Go.Err
   | Go.Ctl.next i =>
   ((0 : Nat), (Go.Err.mk 4 []) /- ErrInvalidMetricValue -/)
 
-/-- Set  (/repo/30/cvss30.go:484:1) -/
+/-- Set  (cvss30.go) -/
 def Set (u0 : Nat) (u1 : Nat) (u2 : Nat) (u3 : Nat) (u4 : Nat) (u5 : Nat) (abv : (List Nat)) (value : (List Nat)) : (Nat × Nat × Nat × Nat × Nat × Nat × Go.Err) :=
   cond ((Go.strEq abv ([65, 86] : List Nat) /- AV -/))
     (match (GenV30.validate value [([78] : List Nat) /- N -/, ([65] : List Nat) /- A -/, ([76] : List Nat) /- L -/, ([80] : List Nat) /- P -/]) with
@@ -510,22 +510,22 @@ def Set (u0 : Nat) (u1 : Nat) (u2 : Nat) (u3 : Nat) (u4 : Nat) (u5 : Nat) (abv :
       (u0, u1, u2, u3, u4, u5, Go.errNil)))
    ((u0, u1, u2, u3, u4, u5, (Go.Err.mk 101 abv) /- ErrInvalidMetric -/)))))))))))))))))))))))
 
-/-- lenVec  (/repo/30/cvss30.go:129:1) -/
---   r0 := cvss30.u1 & 0b00000111
---   r1 := cvss30.u2 & 0b11100000
---   r2 := cvss30.u2 & 0b00011000
---   r3 := cvss30.u2 & 0b00000110
---   r4 := cvss30.u2 & 0b00000001
---   r5 := cvss30.u3 & 0b10000000
---   r6 := cvss30.u3 & 0b01100000
---   r7 := cvss30.u4 & 0b00001100
---   r8 := cvss30.u4 & 0b00000011
---   r9 := cvss30.u5 & 0b11000000
---   r10 := cvss30.u5 & 0b00110000
---   r11 := cvss30.u3 & 0b00011100
---   r12 := cvss30.u3 & 0b00000011
---   r13 := cvss30.u4 & 0b11000000
---   r14 := cvss30.u4 & 0b00110000
+/-- lenVec  (cvss30.go) -/
+--   r0 := (Nat.land u1 (7 : Nat))
+--   r1 := (Nat.land u2 (224 : Nat))
+--   r2 := (Nat.land u2 (24 : Nat))
+--   r3 := (Nat.land u2 (6 : Nat))
+--   r4 := (Nat.land u2 (1 : Nat))
+--   r5 := (Nat.land u3 (128 : Nat))
+--   r6 := (Nat.land u3 (96 : Nat))
+--   r7 := (Nat.land u4 (12 : Nat))
+--   r8 := (Nat.land u4 (3 : Nat))
+--   r9 := (Nat.land u5 (192 : Nat))
+--   r10 := (Nat.land u5 (48 : Nat))
+--   r11 := (Nat.land u3 (28 : Nat))
+--   r12 := (Nat.land u3 (3 : Nat))
+--   r13 := (Nat.land u4 (192 : Nat))
+--   r14 := (Nat.land u4 (48 : Nat))
 def lenVec_core (r0 : Nat) (r1 : Nat) (r2 : Nat) (r3 : Nat) (r4 : Nat) (r5 : Nat) (r6 : Nat) (r7 : Nat) (r8 : Nat) (r9 : Nat) (r10 : Nat) (r11 : Nat) (r12 : Nat) (r13 : Nat) (r14 : Nat) : Nat :=
   F64.flet (44 : Nat) fun l =>
   match (cond (!(Nat.beq r0 (0 : Nat)))
@@ -603,29 +603,29 @@ def lenVec_core (r0 : Nat) (r1 : Nat) (r2 : Nat) (r3 : Nat) (r4 : Nat) (r5 : Nat
 def lenVec (u0 : Nat) (u1 : Nat) (u2 : Nat) (u3 : Nat) (u4 : Nat) (u5 : Nat) : Nat :=
   lenVec_core (Nat.land u1 (7 : Nat)) (Nat.land u2 (224 : Nat)) (Nat.land u2 (24 : Nat)) (Nat.land u2 (6 : Nat)) (Nat.land u2 (1 : Nat)) (Nat.land u3 (128 : Nat)) (Nat.land u3 (96 : Nat)) (Nat.land u4 (12 : Nat)) (Nat.land u4 (3 : Nat)) (Nat.land u5 (192 : Nat)) (Nat.land u5 (48 : Nat)) (Nat.land u3 (28 : Nat)) (Nat.land u3 (3 : Nat)) (Nat.land u4 (192 : Nat)) (Nat.land u4 (48 : Nat))
 
-/-- get  (/repo/30/cvss30.go:645:1) -/
---   r0 := (cvss30.u0 & 0b11000000) >> 6
---   r1 := (cvss30.u0 & 0b00100000) >> 5
---   r2 := (cvss30.u0 & 0b00011000) >> 3
---   r3 := (cvss30.u0 & 0b00000100) >> 2
---   r4 := (cvss30.u0 & 0b00000010) >> 1
---   r5 := ((cvss30.u0 & 0b00000001) << 1) | (cvss30.u1&0b10000000)>>7
---   r6 := (cvss30.u1 & 0b01100000) >> 5
---   r7 := (cvss30.u1 & 0b00011000) >> 3
---   r8 := cvss30.u1 & 0b00000111
---   r9 := (cvss30.u2 & 0b11100000) >> 5
---   r10 := (cvss30.u2 & 0b00011000) >> 3
---   r11 := (cvss30.u2 & 0b00000110) >> 1
---   r12 := ((cvss30.u2 & 0b00000001) << 1) | ((cvss30.u3 & 0b10000000) >> 7)
---   r13 := (cvss30.u3 & 0b01100000) >> 5
---   r14 := (cvss30.u3 & 0b00011100) >> 2
---   r15 := cvss30.u3 & 0b00000011
---   r16 := (cvss30.u4 & 0b11000000) >> 6
---   r17 := (cvss30.u4 & 0b00110000) >> 4
---   r18 := (cvss30.u4 & 0b00001100) >> 2
---   r19 := cvss30.u4 & 0b00000011
---   r20 := (cvss30.u5 & 0b11000000) >> 6
---   r21 := (cvss30.u5 & 0b00110000) >> 4
+/-- get  (cvss30.go) -/
+--   r0 := (Nat.shiftRight (Nat.land u0 (192 : Nat)) (6 : Nat))
+--   r1 := (Nat.shiftRight (Nat.land u0 (32 : Nat)) (5 : Nat))
+--   r2 := (Nat.shiftRight (Nat.land u0 (24 : Nat)) (3 : Nat))
+--   r3 := (Nat.shiftRight (Nat.land u0 (4 : Nat)) (2 : Nat))
+--   r4 := (Nat.shiftRight (Nat.land u0 (2 : Nat)) (1 : Nat))
+--   r5 := (Nat.lor (Nat.mod (Nat.shiftLeft (Nat.land u0 (1 : Nat)) (1 : Nat)) 256) (Nat.shiftRight (Nat.land u1 (128 : Nat)) (7 : Nat)))
+--   r6 := (Nat.shiftRight (Nat.land u1 (96 : Nat)) (5 : Nat))
+--   r7 := (Nat.shiftRight (Nat.land u1 (24 : Nat)) (3 : Nat))
+--   r8 := (Nat.land u1 (7 : Nat))
+--   r9 := (Nat.shiftRight (Nat.land u2 (224 : Nat)) (5 : Nat))
+--   r10 := (Nat.shiftRight (Nat.land u2 (24 : Nat)) (3 : Nat))
+--   r11 := (Nat.shiftRight (Nat.land u2 (6 : Nat)) (1 : Nat))
+--   r12 := (Nat.lor (Nat.mod (Nat.shiftLeft (Nat.land u2 (1 : Nat)) (1 : Nat)) 256) (Nat.shiftRight (Nat.land u3 (128 : Nat)) (7 : Nat)))
+--   r13 := (Nat.shiftRight (Nat.land u3 (96 : Nat)) (5 : Nat))
+--   r14 := (Nat.shiftRight (Nat.land u3 (28 : Nat)) (2 : Nat))
+--   r15 := (Nat.land u3 (3 : Nat))
+--   r16 := (Nat.shiftRight (Nat.land u4 (192 : Nat)) (6 : Nat))
+--   r17 := (Nat.shiftRight (Nat.land u4 (48 : Nat)) (4 : Nat))
+--   r18 := (Nat.shiftRight (Nat.land u4 (12 : Nat)) (2 : Nat))
+--   r19 := (Nat.land u4 (3 : Nat))
+--   r20 := (Nat.shiftRight (Nat.land u5 (192 : Nat)) (6 : Nat))
+--   r21 := (Nat.shiftRight (Nat.land u5 (48 : Nat)) (4 : Nat))
 def get_core (r0 : Nat) (r1 : Nat) (r2 : Nat) (r3 : Nat) (r4 : Nat) (r5 : Nat) (r6 : Nat) (r7 : Nat) (r8 : Nat) (r9 : Nat) (r10 : Nat) (r11 : Nat) (r12 : Nat) (r13 : Nat) (r14 : Nat) (r15 : Nat) (r16 : Nat) (r17 : Nat) (r18 : Nat) (r19 : Nat) (r20 : Nat) (r21 : Nat) (abv : (List Nat)) : (List Nat) :=
   match (GenV30.Get_core r0 r1 r2 r3 r4 r5 r6 r7 r8 r9 r10 r11 r12 r13 r14 r15 r16 r17 r18 r19 r20 r21 abv) with
   | (str, _) =>
@@ -634,54 +634,54 @@ def get_core (r0 : Nat) (r1 : Nat) (r2 : Nat) (r3 : Nat) (r4 : Nat) (r5 : Nat) (
 def get (u0 : Nat) (u1 : Nat) (u2 : Nat) (u3 : Nat) (u4 : Nat) (u5 : Nat) (abv : (List Nat)) : (List Nat) :=
   get_core (Nat.shiftRight (Nat.land u0 (192 : Nat)) (6 : Nat)) (Nat.shiftRight (Nat.land u0 (32 : Nat)) (5 : Nat)) (Nat.shiftRight (Nat.land u0 (24 : Nat)) (3 : Nat)) (Nat.shiftRight (Nat.land u0 (4 : Nat)) (2 : Nat)) (Nat.shiftRight (Nat.land u0 (2 : Nat)) (1 : Nat)) (Nat.lor (Nat.mod (Nat.shiftLeft (Nat.land u0 (1 : Nat)) (1 : Nat)) 256) (Nat.shiftRight (Nat.land u1 (128 : Nat)) (7 : Nat))) (Nat.shiftRight (Nat.land u1 (96 : Nat)) (5 : Nat)) (Nat.shiftRight (Nat.land u1 (24 : Nat)) (3 : Nat)) (Nat.land u1 (7 : Nat)) (Nat.shiftRight (Nat.land u2 (224 : Nat)) (5 : Nat)) (Nat.shiftRight (Nat.land u2 (24 : Nat)) (3 : Nat)) (Nat.shiftRight (Nat.land u2 (6 : Nat)) (1 : Nat)) (Nat.lor (Nat.mod (Nat.shiftLeft (Nat.land u2 (1 : Nat)) (1 : Nat)) 256) (Nat.shiftRight (Nat.land u3 (128 : Nat)) (7 : Nat))) (Nat.shiftRight (Nat.land u3 (96 : Nat)) (5 : Nat)) (Nat.shiftRight (Nat.land u3 (28 : Nat)) (2 : Nat)) (Nat.land u3 (3 : Nat)) (Nat.shiftRight (Nat.land u4 (192 : Nat)) (6 : Nat)) (Nat.shiftRight (Nat.land u4 (48 : Nat)) (4 : Nat)) (Nat.shiftRight (Nat.land u4 (12 : Nat)) (2 : Nat)) (Nat.land u4 (3 : Nat)) (Nat.shiftRight (Nat.land u5 (192 : Nat)) (6 : Nat)) (Nat.shiftRight (Nat.land u5 (48 : Nat)) (4 : Nat)) abv
 
-/-- mandatory  (/repo/30/cvss30.go:207:1) -/
+/-- mandatory  (cvss30.go) -/
 def mandatory (b : (List Nat)) (pre : (List Nat)) (v : (List Nat)) : (List Nat) :=
   let b := (b ++ pre)
   let b := (b ++ v)
   b
 
-/-- notMandatory  (/repo/30/cvss30.go:212:1) -/
+/-- notMandatory  (cvss30.go) -/
 def notMandatory (b : (List Nat)) (pre : (List Nat)) (v : (List Nat)) : (List Nat) :=
   cond (Go.strEq v ([88] : List Nat) /- X -/)
     (b)
     (let b := (GenV30.mandatory b pre v)
     b)
 
-/-- Vector  (/repo/30/cvss30.go:92:1) -/
---   r0 := cvss30.u1 & 0b00000111
---   r1 := cvss30.u2 & 0b11100000
---   r2 := cvss30.u2 & 0b00011000
---   r3 := cvss30.u2 & 0b00000110
---   r4 := cvss30.u2 & 0b00000001
---   r5 := cvss30.u3 & 0b10000000
---   r6 := cvss30.u3 & 0b01100000
---   r7 := cvss30.u4 & 0b00001100
---   r8 := cvss30.u4 & 0b00000011
---   r9 := cvss30.u5 & 0b11000000
---   r10 := cvss30.u5 & 0b00110000
---   r11 := cvss30.u3 & 0b00011100
---   r12 := cvss30.u3 & 0b00000011
---   r13 := cvss30.u4 & 0b11000000
---   r14 := cvss30.u4 & 0b00110000
---   r15 := (cvss30.u0 & 0b11000000) >> 6
---   r16 := (cvss30.u0 & 0b00100000) >> 5
---   r17 := (cvss30.u0 & 0b00011000) >> 3
---   r18 := (cvss30.u0 & 0b00000100) >> 2
---   r19 := (cvss30.u0 & 0b00000010) >> 1
---   r20 := ((cvss30.u0 & 0b00000001) << 1) | (cvss30.u1&0b10000000)>>7
---   r21 := (cvss30.u1 & 0b01100000) >> 5
---   r22 := (cvss30.u1 & 0b00011000) >> 3
---   r23 := (cvss30.u2 & 0b11100000) >> 5
---   r24 := (cvss30.u2 & 0b00011000) >> 3
---   r25 := (cvss30.u2 & 0b00000110) >> 1
---   r26 := ((cvss30.u2 & 0b00000001) << 1) | ((cvss30.u3 & 0b10000000) >> 7)
---   r27 := (cvss30.u3 & 0b01100000) >> 5
---   r28 := (cvss30.u3 & 0b00011100) >> 2
---   r29 := (cvss30.u4 & 0b11000000) >> 6
---   r30 := (cvss30.u4 & 0b00110000) >> 4
---   r31 := (cvss30.u4 & 0b00001100) >> 2
---   r32 := (cvss30.u5 & 0b11000000) >> 6
---   r33 := (cvss30.u5 & 0b00110000) >> 4
+/-- Vector  (cvss30.go) -/
+--   r0 := (Nat.land u1 (7 : Nat))
+--   r1 := (Nat.land u2 (224 : Nat))
+--   r2 := (Nat.land u2 (24 : Nat))
+--   r3 := (Nat.land u2 (6 : Nat))
+--   r4 := (Nat.land u2 (1 : Nat))
+--   r5 := (Nat.land u3 (128 : Nat))
+--   r6 := (Nat.land u3 (96 : Nat))
+--   r7 := (Nat.land u4 (12 : Nat))
+--   r8 := (Nat.land u4 (3 : Nat))
+--   r9 := (Nat.land u5 (192 : Nat))
+--   r10 := (Nat.land u5 (48 : Nat))
+--   r11 := (Nat.land u3 (28 : Nat))
+--   r12 := (Nat.land u3 (3 : Nat))
+--   r13 := (Nat.land u4 (192 : Nat))
+--   r14 := (Nat.land u4 (48 : Nat))
+--   r15 := (Nat.shiftRight (Nat.land u0 (192 : Nat)) (6 : Nat))
+--   r16 := (Nat.shiftRight (Nat.land u0 (32 : Nat)) (5 : Nat))
+--   r17 := (Nat.shiftRight (Nat.land u0 (24 : Nat)) (3 : Nat))
+--   r18 := (Nat.shiftRight (Nat.land u0 (4 : Nat)) (2 : Nat))
+--   r19 := (Nat.shiftRight (Nat.land u0 (2 : Nat)) (1 : Nat))
+--   r20 := (Nat.lor (Nat.mod (Nat.shiftLeft (Nat.land u0 (1 : Nat)) (1 : Nat)) 256) (Nat.shiftRight (Nat.land u1 (128 : Nat)) (7 : Nat)))
+--   r21 := (Nat.shiftRight (Nat.land u1 (96 : Nat)) (5 : Nat))
+--   r22 := (Nat.shiftRight (Nat.land u1 (24 : Nat)) (3 : Nat))
+--   r23 := (Nat.shiftRight (Nat.land u2 (224 : Nat)) (5 : Nat))
+--   r24 := (Nat.shiftRight (Nat.land u2 (24 : Nat)) (3 : Nat))
+--   r25 := (Nat.shiftRight (Nat.land u2 (6 : Nat)) (1 : Nat))
+--   r26 := (Nat.lor (Nat.mod (Nat.shiftLeft (Nat.land u2 (1 : Nat)) (1 : Nat)) 256) (Nat.shiftRight (Nat.land u3 (128 : Nat)) (7 : Nat)))
+--   r27 := (Nat.shiftRight (Nat.land u3 (96 : Nat)) (5 : Nat))
+--   r28 := (Nat.shiftRight (Nat.land u3 (28 : Nat)) (2 : Nat))
+--   r29 := (Nat.shiftRight (Nat.land u4 (192 : Nat)) (6 : Nat))
+--   r30 := (Nat.shiftRight (Nat.land u4 (48 : Nat)) (4 : Nat))
+--   r31 := (Nat.shiftRight (Nat.land u4 (12 : Nat)) (2 : Nat))
+--   r32 := (Nat.shiftRight (Nat.land u5 (192 : Nat)) (6 : Nat))
+--   r33 := (Nat.shiftRight (Nat.land u5 (48 : Nat)) (4 : Nat))
 def Vector_core (r0 : Nat) (r1 : Nat) (r2 : Nat) (r3 : Nat) (r4 : Nat) (r5 : Nat) (r6 : Nat) (r7 : Nat) (r8 : Nat) (r9 : Nat) (r10 : Nat) (r11 : Nat) (r12 : Nat) (r13 : Nat) (r14 : Nat) (r15 : Nat) (r16 : Nat) (r17 : Nat) (r18 : Nat) (r19 : Nat) (r20 : Nat) (r21 : Nat) (r22 : Nat) (r23 : Nat) (r24 : Nat) (r25 : Nat) (r26 : Nat) (r27 : Nat) (r28 : Nat) (r29 : Nat) (r30 : Nat) (r31 : Nat) (r32 : Nat) (r33 : Nat) : (List Nat) :=
   F64.flet (GenV30.lenVec_core r0 r1 r2 r3 r4 r5 r6 r7 r8 r9 r10 r11 r12 r13 r14) fun l =>
   let b := ([] : List Nat)
@@ -710,10 +710,18 @@ def Vector_core (r0 : Nat) (r1 : Nat) (r2 : Nat) (r3 : Nat) (r4 : Nat) (r5 : Nat
   let b := (GenV30.notMandatory b ([47, 77, 65, 58] : List Nat) /- /MA: -/ (GenV30.get_core r15 r16 r17 r18 r19 r20 r21 r22 r0 r23 r24 r25 r26 r27 r28 r12 r29 r30 r31 r8 r32 r33 ([77, 65] : List Nat) /- MA -/))
   b
 
+/-- capacity argument of the `make` in Vector -/
+def Vector_cap_core (r0 : Nat) (r1 : Nat) (r2 : Nat) (r3 : Nat) (r4 : Nat) (r5 : Nat) (r6 : Nat) (r7 : Nat) (r8 : Nat) (r9 : Nat) (r10 : Nat) (r11 : Nat) (r12 : Nat) (r13 : Nat) (r14 : Nat) (r15 : Nat) (r16 : Nat) (r17 : Nat) (r18 : Nat) (r19 : Nat) (r20 : Nat) (r21 : Nat) (r22 : Nat) (r23 : Nat) (r24 : Nat) (r25 : Nat) (r26 : Nat) (r27 : Nat) (r28 : Nat) (r29 : Nat) (r30 : Nat) (r31 : Nat) (r32 : Nat) (r33 : Nat) : Nat :=
+  F64.flet (GenV30.lenVec_core r0 r1 r2 r3 r4 r5 r6 r7 r8 r9 r10 r11 r12 r13 r14) fun l =>
+  l
+
 def Vector (u0 : Nat) (u1 : Nat) (u2 : Nat) (u3 : Nat) (u4 : Nat) (u5 : Nat) : (List Nat) :=
   Vector_core (Nat.land u1 (7 : Nat)) (Nat.land u2 (224 : Nat)) (Nat.land u2 (24 : Nat)) (Nat.land u2 (6 : Nat)) (Nat.land u2 (1 : Nat)) (Nat.land u3 (128 : Nat)) (Nat.land u3 (96 : Nat)) (Nat.land u4 (12 : Nat)) (Nat.land u4 (3 : Nat)) (Nat.land u5 (192 : Nat)) (Nat.land u5 (48 : Nat)) (Nat.land u3 (28 : Nat)) (Nat.land u3 (3 : Nat)) (Nat.land u4 (192 : Nat)) (Nat.land u4 (48 : Nat)) (Nat.shiftRight (Nat.land u0 (192 : Nat)) (6 : Nat)) (Nat.shiftRight (Nat.land u0 (32 : Nat)) (5 : Nat)) (Nat.shiftRight (Nat.land u0 (24 : Nat)) (3 : Nat)) (Nat.shiftRight (Nat.land u0 (4 : Nat)) (2 : Nat)) (Nat.shiftRight (Nat.land u0 (2 : Nat)) (1 : Nat)) (Nat.lor (Nat.mod (Nat.shiftLeft (Nat.land u0 (1 : Nat)) (1 : Nat)) 256) (Nat.shiftRight (Nat.land u1 (128 : Nat)) (7 : Nat))) (Nat.shiftRight (Nat.land u1 (96 : Nat)) (5 : Nat)) (Nat.shiftRight (Nat.land u1 (24 : Nat)) (3 : Nat)) (Nat.shiftRight (Nat.land u2 (224 : Nat)) (5 : Nat)) (Nat.shiftRight (Nat.land u2 (24 : Nat)) (3 : Nat)) (Nat.shiftRight (Nat.land u2 (6 : Nat)) (1 : Nat)) (Nat.lor (Nat.mod (Nat.shiftLeft (Nat.land u2 (1 : Nat)) (1 : Nat)) 256) (Nat.shiftRight (Nat.land u3 (128 : Nat)) (7 : Nat))) (Nat.shiftRight (Nat.land u3 (96 : Nat)) (5 : Nat)) (Nat.shiftRight (Nat.land u3 (28 : Nat)) (2 : Nat)) (Nat.shiftRight (Nat.land u4 (192 : Nat)) (6 : Nat)) (Nat.shiftRight (Nat.land u4 (48 : Nat)) (4 : Nat)) (Nat.shiftRight (Nat.land u4 (12 : Nat)) (2 : Nat)) (Nat.shiftRight (Nat.land u5 (192 : Nat)) (6 : Nat)) (Nat.shiftRight (Nat.land u5 (48 : Nat)) (4 : Nat))
 
-/-- cia  (/repo/30/cvss30.go:814:1) -/
+def Vector_cap (u0 : Nat) (u1 : Nat) (u2 : Nat) (u3 : Nat) (u4 : Nat) (u5 : Nat) : Nat :=
+  Vector_cap_core (Nat.land u1 (7 : Nat)) (Nat.land u2 (224 : Nat)) (Nat.land u2 (24 : Nat)) (Nat.land u2 (6 : Nat)) (Nat.land u2 (1 : Nat)) (Nat.land u3 (128 : Nat)) (Nat.land u3 (96 : Nat)) (Nat.land u4 (12 : Nat)) (Nat.land u4 (3 : Nat)) (Nat.land u5 (192 : Nat)) (Nat.land u5 (48 : Nat)) (Nat.land u3 (28 : Nat)) (Nat.land u3 (3 : Nat)) (Nat.land u4 (192 : Nat)) (Nat.land u4 (48 : Nat)) (Nat.shiftRight (Nat.land u0 (192 : Nat)) (6 : Nat)) (Nat.shiftRight (Nat.land u0 (32 : Nat)) (5 : Nat)) (Nat.shiftRight (Nat.land u0 (24 : Nat)) (3 : Nat)) (Nat.shiftRight (Nat.land u0 (4 : Nat)) (2 : Nat)) (Nat.shiftRight (Nat.land u0 (2 : Nat)) (1 : Nat)) (Nat.lor (Nat.mod (Nat.shiftLeft (Nat.land u0 (1 : Nat)) (1 : Nat)) 256) (Nat.shiftRight (Nat.land u1 (128 : Nat)) (7 : Nat))) (Nat.shiftRight (Nat.land u1 (96 : Nat)) (5 : Nat)) (Nat.shiftRight (Nat.land u1 (24 : Nat)) (3 : Nat)) (Nat.shiftRight (Nat.land u2 (224 : Nat)) (5 : Nat)) (Nat.shiftRight (Nat.land u2 (24 : Nat)) (3 : Nat)) (Nat.shiftRight (Nat.land u2 (6 : Nat)) (1 : Nat)) (Nat.lor (Nat.mod (Nat.shiftLeft (Nat.land u2 (1 : Nat)) (1 : Nat)) 256) (Nat.shiftRight (Nat.land u3 (128 : Nat)) (7 : Nat))) (Nat.shiftRight (Nat.land u3 (96 : Nat)) (5 : Nat)) (Nat.shiftRight (Nat.land u3 (28 : Nat)) (2 : Nat)) (Nat.shiftRight (Nat.land u4 (192 : Nat)) (6 : Nat)) (Nat.shiftRight (Nat.land u4 (48 : Nat)) (4 : Nat)) (Nat.shiftRight (Nat.land u4 (12 : Nat)) (2 : Nat)) (Nat.shiftRight (Nat.land u5 (192 : Nat)) (6 : Nat)) (Nat.shiftRight (Nat.land u5 (48 : Nat)) (4 : Nat))
+
+/-- cia  (cvss30.go) -/
 def cia (v : Nat) : Nat :=
   cond ((Nat.beq v (0 : Nat)))
     ((0x3fe1eb851eb851ec : Nat))
@@ -723,18 +731,18 @@ def cia (v : Nat) : Nat :=
     ((0x0000000000000000 : Nat))
    ((0x7FF8DEAD00000000 : Nat))))
 
-/-- pow15  (/repo/30/cvss30.go:891:1) -/
+/-- pow15  (cvss30.go) -/
 def pow15 (f : Nat) : Nat :=
   F64.flet (F64.mul f f) fun f2 =>
   F64.flet (F64.mul f2 f) fun f3 =>
   F64.flet (F64.mul f2 f3) fun f5 =>
   (F64.mul (F64.mul f5 f5) f5)
 
-/-- Impact  (/repo/30/cvss30.go:664:1) -/
---   r0 := ((cvss30.u0 & 0b00000001) << 1) | (cvss30.u1&0b10000000)>>7
---   r1 := (cvss30.u1 & 0b01100000) >> 5
---   r2 := (cvss30.u1 & 0b00011000) >> 3
---   r3 := cvss30.u0 & 0b00000010
+/-- Impact  (cvss30.go) -/
+--   r0 := (Nat.lor (Nat.mod (Nat.shiftLeft (Nat.land u0 (1 : Nat)) (1 : Nat)) 256) (Nat.shiftRight (Nat.land u1 (128 : Nat)) (7 : Nat)))
+--   r1 := (Nat.shiftRight (Nat.land u1 (96 : Nat)) (5 : Nat))
+--   r2 := (Nat.shiftRight (Nat.land u1 (24 : Nat)) (3 : Nat))
+--   r3 := (Nat.land u0 (2 : Nat))
 def Impact_core (r0 : Nat) (r1 : Nat) (r2 : Nat) (r3 : Nat) : Nat :=
   F64.flet (GenV30.cia r0) fun c =>
   F64.flet (GenV30.cia r1) fun i =>
@@ -747,7 +755,7 @@ def Impact_core (r0 : Nat) (r1 : Nat) (r2 : Nat) (r3 : Nat) : Nat :=
 def Impact (u0 : Nat) (u1 : Nat) (u2 : Nat) (u3 : Nat) (u4 : Nat) (u5 : Nat) : Nat :=
   Impact_core (Nat.lor (Nat.mod (Nat.shiftLeft (Nat.land u0 (1 : Nat)) (1 : Nat)) 256) (Nat.shiftRight (Nat.land u1 (128 : Nat)) (7 : Nat))) (Nat.shiftRight (Nat.land u1 (96 : Nat)) (5 : Nat)) (Nat.shiftRight (Nat.land u1 (24 : Nat)) (3 : Nat)) (Nat.land u0 (2 : Nat))
 
-/-- attackVector  (/repo/30/cvss30.go:758:1) -/
+/-- attackVector  (cvss30.go) -/
 def attackVector (v : Nat) : Nat :=
   cond ((Nat.beq v (0 : Nat)))
     ((0x3feb333333333333 : Nat))
@@ -759,7 +767,7 @@ def attackVector (v : Nat) : Nat :=
     ((0x3fc999999999999a : Nat))
    ((0x7FF8DEAD00000000 : Nat)))))
 
-/-- attackComplexity  (/repo/30/cvss30.go:773:1) -/
+/-- attackComplexity  (cvss30.go) -/
 def attackComplexity (v : Nat) : Nat :=
   cond ((Nat.beq v (0 : Nat)))
     ((0x3fe8a3d70a3d70a4 : Nat))
@@ -767,7 +775,7 @@ def attackComplexity (v : Nat) : Nat :=
     ((0x3fdc28f5c28f5c29 : Nat))
    ((0x7FF8DEAD00000000 : Nat)))
 
-/-- privilegesRequired  (/repo/30/cvss30.go:784:1) -/
+/-- privilegesRequired  (cvss30.go) -/
 def privilegesRequired (v : Nat) (scope : Nat) : Nat :=
   cond ((Nat.beq v (0 : Nat)))
     ((0x3feb333333333333 : Nat))
@@ -781,7 +789,7 @@ def privilegesRequired (v : Nat) (scope : Nat) : Nat :=
       ((0x3fd147ae147ae148 : Nat)))
    ((0x7FF8DEAD00000000 : Nat))))
 
-/-- userInteraction  (/repo/30/cvss30.go:803:1) -/
+/-- userInteraction  (cvss30.go) -/
 def userInteraction (v : Nat) : Nat :=
   cond ((Nat.beq v (0 : Nat)))
     ((0x3feb333333333333 : Nat))
@@ -789,12 +797,12 @@ def userInteraction (v : Nat) : Nat :=
     ((0x3fe3d70a3d70a3d7 : Nat))
    ((0x7FF8DEAD00000000 : Nat)))
 
-/-- Exploitability  (/repo/30/cvss30.go:677:1) -/
---   r0 := (cvss30.u0 & 0b11000000) >> 6
---   r1 := (cvss30.u0 & 0b00100000) >> 5
---   r2 := (cvss30.u0 & 0b00011000) >> 3
---   r3 := (cvss30.u0 & 0b00000010) >> 1
---   r4 := (cvss30.u0 & 0b00000100) >> 2
+/-- Exploitability  (cvss30.go) -/
+--   r0 := (Nat.shiftRight (Nat.land u0 (192 : Nat)) (6 : Nat))
+--   r1 := (Nat.shiftRight (Nat.land u0 (32 : Nat)) (5 : Nat))
+--   r2 := (Nat.shiftRight (Nat.land u0 (24 : Nat)) (3 : Nat))
+--   r3 := (Nat.shiftRight (Nat.land u0 (2 : Nat)) (1 : Nat))
+--   r4 := (Nat.shiftRight (Nat.land u0 (4 : Nat)) (2 : Nat))
 def Exploitability_core (r0 : Nat) (r1 : Nat) (r2 : Nat) (r3 : Nat) (r4 : Nat) : Nat :=
   F64.flet (GenV30.attackVector r0) fun av =>
   F64.flet (GenV30.attackComplexity r1) fun ac =>
@@ -805,23 +813,23 @@ def Exploitability_core (r0 : Nat) (r1 : Nat) (r2 : Nat) (r3 : Nat) (r4 : Nat) :
 def Exploitability (u0 : Nat) (u1 : Nat) (u2 : Nat) (u3 : Nat) (u4 : Nat) (u5 : Nat) : Nat :=
   Exploitability_core (Nat.shiftRight (Nat.land u0 (192 : Nat)) (6 : Nat)) (Nat.shiftRight (Nat.land u0 (32 : Nat)) (5 : Nat)) (Nat.shiftRight (Nat.land u0 (24 : Nat)) (3 : Nat)) (Nat.shiftRight (Nat.land u0 (2 : Nat)) (1 : Nat)) (Nat.shiftRight (Nat.land u0 (4 : Nat)) (2 : Nat))
 
-/-- roundup  (/repo/30/cvss30.go:883:1) -/
+/-- roundup  (cvss30.go) -/
 def roundup (x : Nat) : Nat :=
   F64.flet (F64.roundToEven (F64.mul x (0x40f86a0000000000 : Nat))) fun bx =>
   cond (Nat.beq (Nat.mod (F64.truncAbs bx) (10000 : Nat)) (0 : Nat))
     ((F64.div bx (0x40f86a0000000000 : Nat)))
     ((F64.div (F64.add (F64.floor (F64.div bx (0x40c3880000000000 : Nat))) (0x3ff0000000000000 : Nat)) (0x4024000000000000 : Nat)))
 
-/-- BaseScore  (/repo/30/cvss30.go:651:1) -/
---   r0 := ((cvss30.u0 & 0b00000001) << 1) | (cvss30.u1&0b10000000)>>7
---   r1 := (cvss30.u1 & 0b01100000) >> 5
---   r2 := (cvss30.u1 & 0b00011000) >> 3
---   r3 := cvss30.u0 & 0b00000010
---   r4 := (cvss30.u0 & 0b11000000) >> 6
---   r5 := (cvss30.u0 & 0b00100000) >> 5
---   r6 := (cvss30.u0 & 0b00011000) >> 3
---   r7 := (cvss30.u0 & 0b00000010) >> 1
---   r8 := (cvss30.u0 & 0b00000100) >> 2
+/-- BaseScore  (cvss30.go) -/
+--   r0 := (Nat.lor (Nat.mod (Nat.shiftLeft (Nat.land u0 (1 : Nat)) (1 : Nat)) 256) (Nat.shiftRight (Nat.land u1 (128 : Nat)) (7 : Nat)))
+--   r1 := (Nat.shiftRight (Nat.land u1 (96 : Nat)) (5 : Nat))
+--   r2 := (Nat.shiftRight (Nat.land u1 (24 : Nat)) (3 : Nat))
+--   r3 := (Nat.land u0 (2 : Nat))
+--   r4 := (Nat.shiftRight (Nat.land u0 (192 : Nat)) (6 : Nat))
+--   r5 := (Nat.shiftRight (Nat.land u0 (32 : Nat)) (5 : Nat))
+--   r6 := (Nat.shiftRight (Nat.land u0 (24 : Nat)) (3 : Nat))
+--   r7 := (Nat.shiftRight (Nat.land u0 (2 : Nat)) (1 : Nat))
+--   r8 := (Nat.shiftRight (Nat.land u0 (4 : Nat)) (2 : Nat))
 def BaseScore_core (r0 : Nat) (r1 : Nat) (r2 : Nat) (r3 : Nat) (r4 : Nat) (r5 : Nat) (r6 : Nat) (r7 : Nat) (r8 : Nat) : Nat :=
   F64.flet (GenV30.Impact_core r0 r1 r2 r3) fun impact =>
   F64.flet (GenV30.Exploitability_core r4 r5 r6 r7 r8) fun exploitability =>
@@ -834,7 +842,7 @@ def BaseScore_core (r0 : Nat) (r1 : Nat) (r2 : Nat) (r3 : Nat) (r4 : Nat) (r5 : 
 def BaseScore (u0 : Nat) (u1 : Nat) (u2 : Nat) (u3 : Nat) (u4 : Nat) (u5 : Nat) : Nat :=
   BaseScore_core (Nat.lor (Nat.mod (Nat.shiftLeft (Nat.land u0 (1 : Nat)) (1 : Nat)) 256) (Nat.shiftRight (Nat.land u1 (128 : Nat)) (7 : Nat))) (Nat.shiftRight (Nat.land u1 (96 : Nat)) (5 : Nat)) (Nat.shiftRight (Nat.land u1 (24 : Nat)) (3 : Nat)) (Nat.land u0 (2 : Nat)) (Nat.shiftRight (Nat.land u0 (192 : Nat)) (6 : Nat)) (Nat.shiftRight (Nat.land u0 (32 : Nat)) (5 : Nat)) (Nat.shiftRight (Nat.land u0 (24 : Nat)) (3 : Nat)) (Nat.shiftRight (Nat.land u0 (2 : Nat)) (1 : Nat)) (Nat.shiftRight (Nat.land u0 (4 : Nat)) (2 : Nat))
 
-/-- exploitCodeMaturity  (/repo/30/cvss30.go:827:1) -/
+/-- exploitCodeMaturity  (cvss30.go) -/
 def exploitCodeMaturity (v : Nat) : Nat :=
   cond ((Nat.beq v (0 : Nat)) || (Nat.beq v (1 : Nat)))
     ((0x3ff0000000000000 : Nat))
@@ -846,7 +854,7 @@ def exploitCodeMaturity (v : Nat) : Nat :=
     ((0x3fed1eb851eb851f : Nat))
    ((0x7FF8DEAD00000000 : Nat)))))
 
-/-- remediationLevel  (/repo/30/cvss30.go:842:1) -/
+/-- remediationLevel  (cvss30.go) -/
 def remediationLevel (v : Nat) : Nat :=
   cond ((Nat.beq v (0 : Nat)) || (Nat.beq v (1 : Nat)))
     ((0x3ff0000000000000 : Nat))
@@ -858,7 +866,7 @@ def remediationLevel (v : Nat) : Nat :=
     ((0x3fee666666666666 : Nat))
    ((0x7FF8DEAD00000000 : Nat)))))
 
-/-- reportConfidence  (/repo/30/cvss30.go:857:1) -/
+/-- reportConfidence  (cvss30.go) -/
 def reportConfidence (v : Nat) : Nat :=
   cond ((Nat.beq v (0 : Nat)) || (Nat.beq v (1 : Nat)))
     ((0x3ff0000000000000 : Nat))
@@ -868,19 +876,19 @@ def reportConfidence (v : Nat) : Nat :=
     ((0x3fed70a3d70a3d71 : Nat))
    ((0x7FF8DEAD00000000 : Nat))))
 
-/-- TemporalScore  (/repo/30/cvss30.go:687:1) -/
---   r0 := cvss30.u1 & 0b00000111
---   r1 := (cvss30.u2 & 0b11100000) >> 5
---   r2 := (cvss30.u2 & 0b00011000) >> 3
---   r3 := ((cvss30.u0 & 0b00000001) << 1) | (cvss30.u1&0b10000000)>>7
---   r4 := (cvss30.u1 & 0b01100000) >> 5
---   r5 := (cvss30.u1 & 0b00011000) >> 3
---   r6 := cvss30.u0 & 0b00000010
---   r7 := (cvss30.u0 & 0b11000000) >> 6
---   r8 := (cvss30.u0 & 0b00100000) >> 5
---   r9 := (cvss30.u0 & 0b00011000) >> 3
---   r10 := (cvss30.u0 & 0b00000010) >> 1
---   r11 := (cvss30.u0 & 0b00000100) >> 2
+/-- TemporalScore  (cvss30.go) -/
+--   r0 := (Nat.land u1 (7 : Nat))
+--   r1 := (Nat.shiftRight (Nat.land u2 (224 : Nat)) (5 : Nat))
+--   r2 := (Nat.shiftRight (Nat.land u2 (24 : Nat)) (3 : Nat))
+--   r3 := (Nat.lor (Nat.mod (Nat.shiftLeft (Nat.land u0 (1 : Nat)) (1 : Nat)) 256) (Nat.shiftRight (Nat.land u1 (128 : Nat)) (7 : Nat)))
+--   r4 := (Nat.shiftRight (Nat.land u1 (96 : Nat)) (5 : Nat))
+--   r5 := (Nat.shiftRight (Nat.land u1 (24 : Nat)) (3 : Nat))
+--   r6 := (Nat.land u0 (2 : Nat))
+--   r7 := (Nat.shiftRight (Nat.land u0 (192 : Nat)) (6 : Nat))
+--   r8 := (Nat.shiftRight (Nat.land u0 (32 : Nat)) (5 : Nat))
+--   r9 := (Nat.shiftRight (Nat.land u0 (24 : Nat)) (3 : Nat))
+--   r10 := (Nat.shiftRight (Nat.land u0 (2 : Nat)) (1 : Nat))
+--   r11 := (Nat.shiftRight (Nat.land u0 (4 : Nat)) (2 : Nat))
 def TemporalScore_core (r0 : Nat) (r1 : Nat) (r2 : Nat) (r3 : Nat) (r4 : Nat) (r5 : Nat) (r6 : Nat) (r7 : Nat) (r8 : Nat) (r9 : Nat) (r10 : Nat) (r11 : Nat) : Nat :=
   F64.flet (GenV30.exploitCodeMaturity r0) fun e_ =>
   F64.flet (GenV30.remediationLevel r1) fun rl =>
@@ -890,13 +898,13 @@ def TemporalScore_core (r0 : Nat) (r1 : Nat) (r2 : Nat) (r3 : Nat) (r4 : Nat) (r
 def TemporalScore (u0 : Nat) (u1 : Nat) (u2 : Nat) (u3 : Nat) (u4 : Nat) (u5 : Nat) : Nat :=
   TemporalScore_core (Nat.land u1 (7 : Nat)) (Nat.shiftRight (Nat.land u2 (224 : Nat)) (5 : Nat)) (Nat.shiftRight (Nat.land u2 (24 : Nat)) (3 : Nat)) (Nat.lor (Nat.mod (Nat.shiftLeft (Nat.land u0 (1 : Nat)) (1 : Nat)) 256) (Nat.shiftRight (Nat.land u1 (128 : Nat)) (7 : Nat))) (Nat.shiftRight (Nat.land u1 (96 : Nat)) (5 : Nat)) (Nat.shiftRight (Nat.land u1 (24 : Nat)) (3 : Nat)) (Nat.land u0 (2 : Nat)) (Nat.shiftRight (Nat.land u0 (192 : Nat)) (6 : Nat)) (Nat.shiftRight (Nat.land u0 (32 : Nat)) (5 : Nat)) (Nat.shiftRight (Nat.land u0 (24 : Nat)) (3 : Nat)) (Nat.shiftRight (Nat.land u0 (2 : Nat)) (1 : Nat)) (Nat.shiftRight (Nat.land u0 (4 : Nat)) (2 : Nat))
 
-/-- mod  (/repo/30/cvss30.go:898:1) -/
+/-- mod  (cvss30.go) -/
 def mod_ (base : Nat) (modified : Nat) : Nat :=
   cond (!(Nat.beq modified (0 : Nat)))
     ((Nat.mod (Nat.sub (Nat.add modified 256) (1 : Nat)) 256))
     (base)
 
-/-- ciar  (/repo/30/cvss30.go:870:1) -/
+/-- ciar  (cvss30.go) -/
 def ciar (v : Nat) : Nat :=
   cond ((Nat.beq v (0 : Nat)) || (Nat.beq v (2 : Nat)))
     ((0x3ff0000000000000 : Nat))
@@ -906,29 +914,29 @@ def ciar (v : Nat) : Nat :=
     ((0x3fe0000000000000 : Nat))
    ((0x7FF8DEAD00000000 : Nat))))
 
-/-- EnvironmentalScore  (/repo/30/cvss30.go:695:1) -/
---   r0 := (cvss30.u0 & 0b11000000) >> 6
---   r1 := (cvss30.u3 & 0b00011100) >> 2
---   r2 := (cvss30.u0 & 0b00100000) >> 5
---   r3 := cvss30.u3 & 0b00000011
---   r4 := (cvss30.u0 & 0b00011000) >> 3
---   r5 := (cvss30.u4 & 0b11000000) >> 6
---   r6 := (cvss30.u0 & 0b00000100) >> 2
---   r7 := (cvss30.u4 & 0b00110000) >> 4
---   r8 := (cvss30.u0 & 0b00000010) >> 1
---   r9 := (cvss30.u4 & 0b00001100) >> 2
---   r10 := ((cvss30.u0 & 0b00000001) << 1) | ((cvss30.u1 & 0b10000000) >> 7)
---   r11 := cvss30.u4 & 0b00000011
---   r12 := (cvss30.u1 & 0b01100000) >> 5
---   r13 := (cvss30.u5 & 0b11000000) >> 6
---   r14 := (cvss30.u1 & 0b00011000) >> 3
---   r15 := (cvss30.u5 & 0b00110000) >> 4
---   r16 := (cvss30.u2 & 0b00000110) >> 1
---   r17 := ((cvss30.u2 & 0b00000001) << 1) | ((cvss30.u3 & 0b10000000) >> 7)
---   r18 := (cvss30.u3 & 0b01100000) >> 5
---   r19 := cvss30.u1 & 0b00000111
---   r20 := (cvss30.u2 & 0b11100000) >> 5
---   r21 := (cvss30.u2 & 0b00011000) >> 3
+/-- EnvironmentalScore  (cvss30.go) -/
+--   r0 := (Nat.shiftRight (Nat.land u0 (192 : Nat)) (6 : Nat))
+--   r1 := (Nat.shiftRight (Nat.land u3 (28 : Nat)) (2 : Nat))
+--   r2 := (Nat.shiftRight (Nat.land u0 (32 : Nat)) (5 : Nat))
+--   r3 := (Nat.land u3 (3 : Nat))
+--   r4 := (Nat.shiftRight (Nat.land u0 (24 : Nat)) (3 : Nat))
+--   r5 := (Nat.shiftRight (Nat.land u4 (192 : Nat)) (6 : Nat))
+--   r6 := (Nat.shiftRight (Nat.land u0 (4 : Nat)) (2 : Nat))
+--   r7 := (Nat.shiftRight (Nat.land u4 (48 : Nat)) (4 : Nat))
+--   r8 := (Nat.shiftRight (Nat.land u0 (2 : Nat)) (1 : Nat))
+--   r9 := (Nat.shiftRight (Nat.land u4 (12 : Nat)) (2 : Nat))
+--   r10 := (Nat.lor (Nat.mod (Nat.shiftLeft (Nat.land u0 (1 : Nat)) (1 : Nat)) 256) (Nat.shiftRight (Nat.land u1 (128 : Nat)) (7 : Nat)))
+--   r11 := (Nat.land u4 (3 : Nat))
+--   r12 := (Nat.shiftRight (Nat.land u1 (96 : Nat)) (5 : Nat))
+--   r13 := (Nat.shiftRight (Nat.land u5 (192 : Nat)) (6 : Nat))
+--   r14 := (Nat.shiftRight (Nat.land u1 (24 : Nat)) (3 : Nat))
+--   r15 := (Nat.shiftRight (Nat.land u5 (48 : Nat)) (4 : Nat))
+--   r16 := (Nat.shiftRight (Nat.land u2 (6 : Nat)) (1 : Nat))
+--   r17 := (Nat.lor (Nat.mod (Nat.shiftLeft (Nat.land u2 (1 : Nat)) (1 : Nat)) 256) (Nat.shiftRight (Nat.land u3 (128 : Nat)) (7 : Nat)))
+--   r18 := (Nat.shiftRight (Nat.land u3 (96 : Nat)) (5 : Nat))
+--   r19 := (Nat.land u1 (7 : Nat))
+--   r20 := (Nat.shiftRight (Nat.land u2 (224 : Nat)) (5 : Nat))
+--   r21 := (Nat.shiftRight (Nat.land u2 (24 : Nat)) (3 : Nat))
 def EnvironmentalScore_core (r0 : Nat) (r1 : Nat) (r2 : Nat) (r3 : Nat) (r4 : Nat) (r5 : Nat) (r6 : Nat) (r7 : Nat) (r8 : Nat) (r9 : Nat) (r10 : Nat) (r11 : Nat) (r12 : Nat) (r13 : Nat) (r14 : Nat) (r15 : Nat) (r16 : Nat) (r17 : Nat) (r18 : Nat) (r19 : Nat) (r20 : Nat) (r21 : Nat) : Nat :=
   F64.flet (GenV30.mod_ r0 r1) fun mav =>
   F64.flet (GenV30.mod_ r2 r3) fun mac =>
@@ -963,7 +971,7 @@ def EnvironmentalScore_core (r0 : Nat) (r1 : Nat) (r2 : Nat) (r3 : Nat) (r4 : Na
 def EnvironmentalScore (u0 : Nat) (u1 : Nat) (u2 : Nat) (u3 : Nat) (u4 : Nat) (u5 : Nat) : Nat :=
   EnvironmentalScore_core (Nat.shiftRight (Nat.land u0 (192 : Nat)) (6 : Nat)) (Nat.shiftRight (Nat.land u3 (28 : Nat)) (2 : Nat)) (Nat.shiftRight (Nat.land u0 (32 : Nat)) (5 : Nat)) (Nat.land u3 (3 : Nat)) (Nat.shiftRight (Nat.land u0 (24 : Nat)) (3 : Nat)) (Nat.shiftRight (Nat.land u4 (192 : Nat)) (6 : Nat)) (Nat.shiftRight (Nat.land u0 (4 : Nat)) (2 : Nat)) (Nat.shiftRight (Nat.land u4 (48 : Nat)) (4 : Nat)) (Nat.shiftRight (Nat.land u0 (2 : Nat)) (1 : Nat)) (Nat.shiftRight (Nat.land u4 (12 : Nat)) (2 : Nat)) (Nat.lor (Nat.mod (Nat.shiftLeft (Nat.land u0 (1 : Nat)) (1 : Nat)) 256) (Nat.shiftRight (Nat.land u1 (128 : Nat)) (7 : Nat))) (Nat.land u4 (3 : Nat)) (Nat.shiftRight (Nat.land u1 (96 : Nat)) (5 : Nat)) (Nat.shiftRight (Nat.land u5 (192 : Nat)) (6 : Nat)) (Nat.shiftRight (Nat.land u1 (24 : Nat)) (3 : Nat)) (Nat.shiftRight (Nat.land u5 (48 : Nat)) (4 : Nat)) (Nat.shiftRight (Nat.land u2 (6 : Nat)) (1 : Nat)) (Nat.lor (Nat.mod (Nat.shiftLeft (Nat.land u2 (1 : Nat)) (1 : Nat)) 256) (Nat.shiftRight (Nat.land u3 (128 : Nat)) (7 : Nat))) (Nat.shiftRight (Nat.land u3 (96 : Nat)) (5 : Nat)) (Nat.land u1 (7 : Nat)) (Nat.shiftRight (Nat.land u2 (224 : Nat)) (5 : Nat)) (Nat.shiftRight (Nat.land u2 (24 : Nat)) (3 : Nat))
 
-/-- Rating  (/repo/30/cvss30.go:737:1) -/
+/-- Rating  (cvss30.go) -/
 def Rating (score : Nat) : ((List Nat) × Go.Err) :=
   cond ((F64.lt score (0x0000000000000000 : Nat)) || (F64.lt (0x4024000000000000 : Nat) score))
     ((([] : List Nat) /-  -/, (Go.Err.mk 5 []) /- ErrOutOfBoundsScore -/))
@@ -977,18 +985,17 @@ def Rating (score : Nat) : ((List Nat) × Go.Err) :=
             ((([76, 79, 87] : List Nat) /- LOW -/, Go.errNil))
             ((([78, 79, 78, 69] : List Nat) /- NONE -/, Go.errNil))))))
 
-/-- constant header (/repo/30/cvss30.go:12:2) -/
+/-- constant header (cvss30.go) -/
 def const_header : List Nat :=
   ([67, 86, 83, 83, 58, 51, 46, 48, 47] : List Nat)
 
-/-- sha256 of the printed source of ParseVector (/repo/30/cvss30.go:17:1) -/
-def srchash_ParseVector : String := "c7727b64393906a8"
+/-- fields of the object type (name:type), in declaration order -/
+def obj_fields : List String :=
+  ["u0:uint8", "u1:uint8", "u2:uint8", "u3:uint8", "u4:uint8", "u5:uint8"]
 
-/-- sha256 of the printed source of splitCouple (/repo/30/cvss30.go:82:1) -/
-def srchash_splitCouple : String := "ae021b08e0e9b67c"
-
-/-- sha256 of the printed source of kvm.Set (/repo/30/cvss30.go:921:1) -/
-def srchash_kvm_Set : String := "a4ff4c38bdba813b"
+/-- methods of the object type with a pointer receiver (the only ones that can change the object) -/
+def obj_ptr_methods : List String :=
+  ["Set"]
 
 /-- `init` functions of the package (file:init) -/
 def pkg_inits : List String :=
